@@ -2,8 +2,10 @@
 # usage: tools/try_patch.sh <patch.diff> <Cnn> [tier]   — applies the patch to a scratch worktree of /repo HEAD,
 # runs the check for Cnn against it (VERIF_REPO), removes the worktree. Exit code = the check's exit code.
 set -u
+# cache guard: scratch builds can fill the disk
+[ "$(df --output=avail -BG / | tail -1 | tr -dc 0-9)" -lt 25 ] && go clean -cache
 P=$(realpath "$1"); ID=$2; TIER=${3:-quick}
-WT=/var/tmp/try-$$-$ID
+WT=/var/tmp/try-$ID
 BASE=HEAD
 M="$(dirname "$P")/meta.json"
 if [ -f "$M" ]; then B=$(python3 -c "import json,sys; print(json.load(open(sys.argv[1])).get('base_commit',''))" "$M" 2>/dev/null); [ -n "$B" ] && BASE=$B; fi
